@@ -619,3 +619,4 @@ PROPS["C10"]["assumptions"] = list(PROPS["C10"]["assumptions"]) + [REAL_TIMERS]
 PROPS["C13"]["rule"] += " OS part: one case in four makes the first 1, 2, 3, 5 or all rtnetlink dump requests fail (EINTR, EAGAIN, ENODEV, EPERM, ENOBUFS): a dump that keeps failing must surface as an error; after a transient failure either an error or exactly the listing."
 PROPS["C17"]["rule"] += " Every probe also gathers through a real pedantic registry right after the direct scrape: the collector and the registry must agree on whether the scrape failed. A race-detector part (60 / 3000 configurations) runs three registries' gathers, two debug-API requests and one RA build per advertising interface from real goroutines at once."
 PROPS["C08"]["rule"] += " In a third of the cases with transmit latency, a transmission that completes after the stop request fails (ENETDOWN, ENOBUFS, a non-syscall error): the stop still ends without an error and, when terminating, with the final advertisement."
+PROPS["C20"]["rule"] += " In one case in ten the service manager's end of the notification socket is gone before the server starts (every notification fails): supervision must be unaffected."
